@@ -64,6 +64,9 @@ func (u *User) init() error {
 		}
 	}
 
+	// 重新编译权限：先清除之前的匹配器，否则缩小后的权限仍会被旧规则放行
+	u.pushMatchers = u.pushMatchers[:0]
+	u.pullMatchers = u.pullMatchers[:0]
 	initMatchers(u.PushAccess, &u.pushMatchers)
 	initMatchers(u.PullAccess, &u.pullMatchers)
 	return nil
